@@ -82,6 +82,38 @@ pub mod atomic {
                     super::hook("rmw");
                     self.0.fetch_sub(v, o)
                 }
+                pub fn swap(&self, v: $ty, o: Ordering) -> $ty {
+                    super::hook("rmw");
+                    self.0.swap(v, o)
+                }
+                pub fn fetch_max(&self, v: $ty, o: Ordering) -> $ty {
+                    super::hook("rmw");
+                    self.0.fetch_max(v, o)
+                }
+                pub fn fetch_min(&self, v: $ty, o: Ordering) -> $ty {
+                    super::hook("rmw");
+                    self.0.fetch_min(v, o)
+                }
+                pub fn fetch_and(&self, v: $ty, o: Ordering) -> $ty {
+                    super::hook("rmw");
+                    self.0.fetch_and(v, o)
+                }
+                pub fn fetch_or(&self, v: $ty, o: Ordering) -> $ty {
+                    super::hook("rmw");
+                    self.0.fetch_or(v, o)
+                }
+                pub fn fetch_xor(&self, v: $ty, o: Ordering) -> $ty {
+                    super::hook("rmw");
+                    self.0.fetch_xor(v, o)
+                }
+                /// Exclusive access: no other thread can observe the value, not an atomic step.
+                pub fn get_mut(&mut self) -> &mut $ty {
+                    self.0.get_mut()
+                }
+                /// Consumes the atomic: not an atomic step.
+                pub fn into_inner(self) -> $ty {
+                    self.0.into_inner()
+                }
                 /// Same algorithm as std: a load followed by a compare-exchange loop,
                 /// with every atomic step visible to the scheduler.
                 pub fn fetch_update<F>(
